@@ -38,12 +38,26 @@ func main() {
 	shim := flag.String("shim", "/verif/shim", "shim sources")
 	pkgs := flag.String("pkgs", "", "comma separated pkgdir=flags (s sync, a atomic, r rand, t time)")
 	extra := flag.String("extra", "", "comma separated dst=src extra overlay entries")
+	mutate := flag.String("mutate", os.Getenv("VERIF_MUTATE"), "comma separated dst=src: use file src as the content of /repo file dst (seeded-change testing without touching /repo)")
 	flag.Parse()
 	if *out == "" {
 		die("-out required")
 	}
 	os.MkdirAll(*out, 0o755)
 	replace := map[string]string{}
+	override := map[string]string{}
+	for _, e := range strings.Split(*mutate, ",") {
+		if e == "" {
+			continue
+		}
+		kv := strings.SplitN(e, "=", 2)
+		dst := kv[0]
+		if !filepath.IsAbs(dst) {
+			dst = filepath.Join(*repo, dst)
+		}
+		override[dst] = kv[1]
+		replace[dst] = kv[1]
+	}
 
 	for _, spec := range strings.Split(*pkgs, ",") {
 		if spec == "" {
@@ -65,7 +79,11 @@ func main() {
 				continue
 			}
 			src := filepath.Join(dir, n)
-			res, changed := rewriteFile(src, flags)
+			from := src
+			if o, ok := override[src]; ok {
+				from = o
+			}
+			res, changed := rewriteFile(from, flags)
 			if !changed {
 				continue
 			}
